@@ -1,6 +1,9 @@
 (* R4: the session-restore walk with the strict comparison `<` of the code as
    found (is_parent_around, pcfg_grammar.py:859-896) does NOT rebuild the
-   frontier.  Concrete binary64 witness; everything is decided by vm_compute. *)
+   frontier.  Concrete binary64 witness; everything is decided by computation.
+   (Note: vm_compute is only applied to goals whose types do not mention
+   [item F64] -- normalising the [F64] record inside a type argument diverges
+   in practice; the other goals are closed by [reflexivity].) *)
 From Coq Require Import List Arith Bool Floats Sorting.Permutation.
 From Pcfg Require Import ProbAlg F64 Next NextSpec.
 Import ListNotations.
@@ -31,17 +34,33 @@ Proof. vm_compute. reflexivity. Qed.
 Lemma frontier_rs1 : show (filter (frontierb rs1 m1) (all_preterminals rs1)) = [(0, [0; 1])].
 Proof. vm_compute. reflexivity. Qed.
 
+Definition child1  : item F64 := mk rs1 0 [(0, 1); (1, 1)] 1%float.
+Definition parent1 : item F64 := mk rs1 0 [(0, 0); (1, 1)] 1%float.
+
+Lemma restored_strict_eq : restored_gen true rs1 m1 = [child1; parent1].
+Proof. reflexivity. Qed.
+
+Lemma restored_nonstrict_eq : restored_gen false rs1 m1 = [parent1].
+Proof. reflexivity. Qed.
+
+Lemma frontier_eq : filter (frontierb rs1 m1) (all_preterminals rs1) = [parent1].
+Proof. reflexivity. Qed.
+
 (* [0;1] is a parent of [1;1], has probability exactly m1, and both are restored *)
 Lemma restored_strict_parent_and_child :
-  let child  := mk rs1 0 [(0, 1); (1, 1)] 1%float in
-  let parent := mk rs1 0 [(0, 0); (1, 1)] 1%float in
-  In child (restored_gen true rs1 m1) /\
-  In parent (restored_gen true rs1 m1) /\
-  In parent (parents rs1 child) /\
-  @peq F64 (iprob parent) m1 = true /\
-  frontierb rs1 m1 child = false.
+  In child1 (restored_gen true rs1 m1) /\
+  In parent1 (restored_gen true rs1 m1) /\
+  In parent1 (parents rs1 child1) /\
+  @peq F64 (iprob parent1) m1 = true /\
+  frontierb rs1 m1 child1 = false /\
+  frontierb rs1 m1 parent1 = true.
 Proof.
-  vm_compute. repeat split; auto.
+  rewrite restored_strict_eq.
+  split; [left; reflexivity|].
+  split; [right; left; reflexivity|].
+  split; [left; reflexivity|].
+  split; [vm_compute; reflexivity|].
+  split; vm_compute; reflexivity.
 Qed.
 
 Theorem restore_strict_refuted :
